@@ -13,7 +13,7 @@ REPLAY_ANY = 40      # schedule-dependent: a failing program must fail again wit
 RULE = ("rtdrv in free-running mode, libovni and driver built with ThreadSanitizer: 2-8 pthreads released by a "
         "barrier, each with its own generated op list (thread_init, require, add_cpu, emits, jumbo emits incl. "
         "buffer-boundary crossings, flushes, marks, attributes, attr_flush, thread_free) and generated spin "
-        "delays, a third of the threads setting the process rank (recorded in the caller's metadata only), a third of the programs with one thread that has finished completely before the others are released together; direct and OVNI_TMPDIR mode.  Race trials: N threads call ovni_proc_init (resp. ovni_proc_fini) "
+        "delays, thread ids 300+k or 300+k*32768, a quarter of the threads issuing 20-60 requirements in a row, a third of the threads setting the process rank (recorded in the caller's metadata only), a third of the programs with one thread that has finished completely before the others are released together; direct and OVNI_TMPDIR mode.  Race trials: N threads call ovni_proc_init (resp. ovni_proc_fini) "
         "from the barrier; refusals (die) are observed through a SIGABRT handler.  Oracle: (1) no ThreadSanitizer "
         "report with a frame in ovni.c / common.c / parson.c; (2) every thread's stream equals its own emit log "
         "and its stream.json holds exactly its tid, the attributes, requires, CPUs and marks it set; (3) race "
